@@ -68,7 +68,7 @@ def anomaly(line):
         return d
     if line.get("a") == "Reset":
         return None
-    if line.get("out") not in ("ok", "rej", "query"):
+    if line.get("out") not in ("ok", "rej", "query", "lost") or (line.get("out") == "lost") != (line.get("drop", 0) > 0):
         return "the request was not answered: %s" % line.get("out")
     if not _is_int(line.get("id")) or not _is_int(line.get("filled")) or not _is_int(line.get("rt")):
         return "the response carries a non-integral id / filled quantity / time: %s %s %s" % (line.get("id"), line.get("filled"), line.get("rt"))
@@ -93,7 +93,8 @@ def _bal(b):
 
 def _req(line):
     if line["a"] == "open":
-        return "%s %s %d @ %d on %s (client time %d ms)" % (line["kind"], line["side"], line["q"], line["p"], line["instr"], line["t"])
+        return "%s %s %d @ %d on %s (client time %d ms)%s" % (line["kind"], line["side"], line["q"], line["p"], line["instr"], line["t"],
+                                                          ", requester stopped waiting before the exchange handled it" if line.get("drop") else "")
     if line["a"] == "trades":
         return "fetch_trades(since %d ms) at client time %d ms" % (line["since"], line["t"])
     return "%s at client time %d ms" % (line["a"], line["t"])
@@ -108,7 +109,7 @@ def signature(line, fails):
 def scenario_of(seg):
     r = seg[0]
     init = {"fee": r["fee"], "lat": r["lat"], "bal": r["cfg"]["bal"], "open": r["cfg"]["open"]}
-    keys = ("a", "t", "side", "p", "q", "instr", "kind", "since")
+    keys = ("a", "t", "side", "p", "q", "instr", "kind", "since", "drop")
     return {"init": init, "evs": [{k: l[k] for k in keys} for l in seg[1:]]}
 
 
@@ -209,7 +210,7 @@ def check(ctx):
         parts = []
         for label, scn in (("transitions", p_t), ("behaviours", p_b)):
             out = ctx.path("trace_%s_%s.ndjson" % (label, mode))
-            harness(ctx, "run", "--scenarios", scn, "--out", out, "--mode", mode)
+            harness(ctx, "run", "--scenarios", scn, "--out", out, "--mode", mode, "--abandon", 4)
             parts.append((label, out))
             ctx.cov["scenarios_replayed"] += len(scn_t) if label == "transitions" else len(scn_b)
         out = ctx.path("trace_random_%s.ndjson" % mode)
